@@ -125,7 +125,11 @@ def check_input(input_data, y=None, preprocessor=None,
   # We need to convert input_data into a numpy.ndarray if possible, before
   # any further checks or conversions, and deal with y if needed. Therefore
   # we use check_array/check_X_y with fixed permissive arguments.
-  if y is None:
+  # (a scalar or None has no samples whose number could be compared with
+  # y's: it is rejected below like any input with a wrong dimensionality)
+  is_scalar = (input_data is None or np.isscalar(input_data) or
+               getattr(input_data, 'ndim', None) == 0)
+  if y is None or is_scalar:
     input_data = check_array(input_data, ensure_2d=False, allow_nd=True,
                              copy=False,
                              accept_sparse=True, dtype=None,
